@@ -84,7 +84,8 @@ func runFrames(in []byte) outcome {
 		out.r = bytes.NewReader(m1)
 		var msg2 protocol.Message
 		if err := wc.Read(&msg2); err != nil {
-			o.rt = fmt.Sprintf("re-encoded message (%s) %s is rejected: %v", typ, hexShort(m1), err)
+			o.rt = rejectedMsg("message ("+typ+")", m1, err)
+			classify(&o)
 			break
 		}
 		if m2 := cbor.Marshal(&msg2); !bytes.Equal(m1[4:], m2) {
@@ -550,6 +551,7 @@ func runVerifyNode(lookup *rtLookup) func(in []byte) outcome {
 				}
 			}
 		}
+		classify(&o)
 		o.digest = digestOf(res)
 		return o
 	}
